@@ -52,7 +52,7 @@ def _case(draw):
     lo = [draw(st.sampled_from([0.0, -1.0, -5.0, 2.0, 100.0])) for _ in range(d)]
     hi = [l + draw(st.sampled_from([1.0, 2.0, 6.283185307179586, 10.0, 0.05])) for l in lo]
     n = draw(st.integers(1, 12))
-    u = [[draw(st.one_of(st.floats(0.001, 0.999), st.floats(0.0, 1.0),
+    u = [[draw(st.one_of(st.floats(0.001, 0.999), st.floats(0.0, 1.0), st.sampled_from([0.0, 1.0, 0.5]),
                          st.builds(lambda k: 10.0**-k, st.integers(2, 7)),
                          st.builds(lambda k: 1 - 10.0**-k, st.integers(2, 7)))) for _ in range(d)] for _ in range(n)]
     off = [[draw(st.sampled_from([0.0, 0.0, 0.0, 0.5, -0.5, 3.0, -3.0, 8.0, -8.0])) for _ in range(d)] for _ in range(n)]
